@@ -93,6 +93,7 @@ CaseResult run_dynamic(const RunCtx &ctx, TapeReader &t, unsigned size_hint) {
     unsigned base = bases[t.below(7)];
     unsigned lg = __builtin_ctz(base);
     unsigned buffer_level = (unsigned) t.below(4);
+    (void) lg;
     while (buffer_level > 0 && lg * (buffer_level + 1) > 21) --buffer_level; // keep the eager reserve() of the library below ~2M entries
     static const unsigned ilw[] = {3, 2, 2, 2, 1, 1, 1};
     unsigned index_level = (unsigned) t.weighted(ilw); // 0 = default (2^24 entries): no level is ever indexed
@@ -106,12 +107,27 @@ CaseResult run_dynamic(const RunCtx &ctx, TapeReader &t, unsigned size_hint) {
     o.max_n = 6000;
     std::vector<K> uni = gen_keys<K>(t, o, meta);
     uni.erase(std::unique(uni.begin(), uni.end()), uni.end());
+    // "deep" class (about 1 history in 250): base 2 or 4 with a tiny buffer and 2^16..2^19 distinct keys inserted one by one, so that
+    // 14..18 levels are live at once (the k-way merge of the iterator, find() and lower_bound() walk all of them)
+    const bool deep = sizeof(K) >= 4 && size_hint >= 97 && t.chance(1, 8);
+    size_t deep_n = 0;
+    if (deep) {
+        base = t.chance(3, 4) ? 2 : 4;
+        lg = __builtin_ctz(base);
+        buffer_level = 1 + (unsigned) t.below(2);
+        deep_n = (size_t(1) << 16) + t.below((size_t(1) << 19) - (size_t(1) << 16));
+        K start = (K) t.below(1000);
+        K stride = (K) (1 + t.below(7));
+        uni.resize(deep_n + 64);
+        for (size_t i = 0; i < uni.size(); ++i) uni[i] = K(start + stride * K(i));
+        meta.recipe = "deep: arithmetic progression start=" + key_str(start) + " stride=" + key_str(stride);
+    }
     const size_t U = uni.size();
 
     // ---------------------------------------------------------------- bulk load
     std::vector<std::pair<K, uint32_t>> bulk; // (key, value id), sorted, repeated keys allowed (first wins)
     uint32_t next_id = 1;
-    unsigned bulk_kind = (unsigned) t.below(5); // 0 = empty container, 1 = empty range, 2 = some keys, 3 = most keys, 4 = base^L + d keys
+    unsigned bulk_kind = deep ? (unsigned) t.below(2) : (unsigned) t.below(5); // 0 = empty container, 1 = empty range, 2 = some keys, 3 = most keys, 4 = base^L + d keys
     if (bulk_kind == 4) { // level-capacity edge: exactly base^L - 1, base^L or base^L + 1 distinct keys (if the universe has that many)
         unsigned Lmax = 1;
         while (((size_t) 1 << (lg * (Lmax + 1))) + 1 <= U && lg * (Lmax + 1) < 20) ++Lmax;
@@ -134,7 +150,16 @@ CaseResult run_dynamic(const RunCtx &ctx, TapeReader &t, unsigned size_hint) {
     // ---------------------------------------------------------------- operations
     size_t n_ops = size_hint < 20 ? 4 + t.below(20) : size_hint < 60 ? 10 + t.below(120) : 20 + t.below(400);
     std::vector<DynOp> ops;
-    ops.reserve(n_ops);
+    ops.reserve(n_ops + 2);
+    if (deep) {
+        DynOp big;
+        big.kind = DynOp::INS_RUN;
+        big.a = 0;
+        big.b = deep_n;
+        big.c = 1;
+        ops.push_back(big);
+        n_ops = 20 + t.below(80);
+    }
     // weights: INS ERASE INS_RUN ERASE_RUN FIND LB SCAN ITER_FROM RANGE SIZE_EMPTY ERASE_ALL (erase every live key: the container drains)
     static const unsigned w05[] = {20, 12, 4, 2, 8, 8, 0, 0, 0, 0, 1}, w06[] = {20, 12, 4, 2, 0, 0, 4, 6, 8, 4, 1}, w15[] = {20, 12, 6, 4, 0, 0, 0, 0, 0, 0, 2};
     size_t recent[8] = {0, 0, 0, 0, 0, 0, 0, 0};
@@ -149,6 +174,7 @@ CaseResult run_dynamic(const RunCtx &ctx, TapeReader &t, unsigned size_hint) {
             return x;
         };
         op.a = pick_idx();
+        if (deep && op.kind == DynOp::ERASE_ALL) op.kind = DynOp::SCAN; // draining 2^18 keys one by one is quadratic in the library (tombstone walks)
         switch (op.kind) {
             case DynOp::INS_RUN:
             case DynOp::ERASE_RUN: {
@@ -159,6 +185,7 @@ CaseResult run_dynamic(const RunCtx &ctx, TapeReader &t, unsigned size_hint) {
                     case 2: op.b = 200 + t.below(800); break;
                     default: op.b = 600 + t.below(4400); break;
                 }
+                if (deep && op.kind == DynOp::ERASE_RUN) op.b = std::min<size_t>(op.b, 300);
                 op.c = 1 + t.below(3);
                 break;
             }
@@ -230,6 +257,7 @@ CaseResult run_dynamic(const RunCtx &ctx, TapeReader &t, unsigned size_hint) {
     res.label(base == 2 ? "base_2" : base == 4 ? "base_4" : base == 8 ? "base_8" : base == 16 ? "base_16" : base == 32 ? "base_32" : base == 64 ? "base_64" : "base_128");
     res.label(bulk_kind == 0 ? "ctor_default" : bulk_kind == 1 ? "ctor_empty_range" : bulk_kind == 4 ? "ctor_bulk_load_capacity_edge" : "ctor_bulk_load");
     res.label(index_level == 0 ? "index_level_default" : "index_level_low");
+    if (deep) res.label("deep_history_ge_2p16_inserts");
 
     uint64_t n_updates = 0, n_checks = 0;
     bool saw_deep_merge = false, saw_shadow_erase = false, saw_indexed_level = false, saw_perm_delete_possible = false, saw_ge3_levels = false;
@@ -395,10 +423,13 @@ CaseResult run_dynamic(const RunCtx &ctx, TapeReader &t, unsigned size_hint) {
     auto do_erase = [&](size_t idx) -> bool { return do_erase_key(uni[idx % U]); };
     auto after_update = [&](size_t idx, bool light) -> bool {
         if (c15 && !mem) return invariants(false);
-        if (light && (n_updates & 15)) { // inside long runs: the touched key always, its neighbours every 16th update
+        if (light && (n_updates & 15)) { // inside long runs: find/count of the touched key always, its neighbours every 16th update
             K q = uni[idx % U];
-            return point_checks(q);
+            // (lower_bound walks over every tombstone behind the key: it is asked every 16th update only, every 512th in deep histories)
+            if (!expect_item("find", q, dyn->find(q), model.find(q))) return false;
+            return true;
         }
+        if (deep && (n_updates & 511)) return true;
         return around(idx);
     };
 
@@ -434,7 +465,7 @@ CaseResult run_dynamic(const RunCtx &ctx, TapeReader &t, unsigned size_hint) {
                     if (!res.ok) break;
                     if (!do_erase_key(k)) break;
                     if (c15 && !mem) invariants(false);
-                    else if ((n_updates & 15) == 0) point_checks(k);
+                    else if ((n_updates & 15) == 0) expect_item("find", k, dyn->find(k), model.find(k));
                 }
                 if (res.ok && !c15) full_scan();
                 res.label("erase_all");
